@@ -34,7 +34,7 @@ SPECS = [
          ("stepQuantifiers", 300, "$exists"), ("stepUpdateSet", 200, "$update"), ("stepUpdateDel", 420, "$update"),
          ("stepUpdateMod", 300, "$update"), ("stepSplit", 420, "$split"), ("stepFilter", 420, "$filter"),
          ("stepPartition", 420, "$partition"), ("stepCompare", 420, "$compare"),
-         ("stepMerge", 420, "$merge"), ("stepMergeTallLeft", 420, "$merge"),
+         ("stepMerge", 420, "$merge"), ("stepMergeTallLeft", 420, "$merge"), ("stepEqualShapes", 420, "$equal"),
      ]},
     {"name": "SetSpec", "lib": "std$set",
      "steps": [
@@ -43,6 +43,7 @@ SPECS = [
          ("stepFold", 300, "$fold"), ("stepSplit", 420, "$split"), ("stepFilter", 420, "$filter"), ("stepUnion", 420, "$union"),
          ("stepIntersection", 420, "$intersection"), ("stepDiff", 420, "$diff"), ("stepSubset", 420, "$subset"),
          ("stepCompare", 420, "$compare"), ("stepFromList", 300, "$fromList"), ("stepMap", 420, "$map"), ("stepMapClamp", 420, "$map"),
+         ("stepEqualShapes", 420, "$equal"), ("stepCompareTie", 420, "$compare"),
      ]},
 ]
 SPECS.append(
